@@ -286,12 +286,14 @@ class Inliner(object):
     return pre + [s]
 
   def _first_inlinable(self, expr, fn, stack):
-    """the first call (evaluation order) that can be inlined, provided nothing impure is evaluated before it."""
+    """the first call (evaluation order) that can be inlined, provided nothing impure is evaluated before it - calls
+    inside its own arguments excepted: those are evaluated first in the splice as well (argument binding)."""
+    impure_before = []
     for c in _calls_in_eval_order(expr):
       callee = self._callee(c, fn)
       if callee is not None and callee.key not in stack and self._simple(callee, c):
-        # short-circuit operands after the first are not always evaluated: only hoist from always-evaluated positions
-        if _always_evaluated(expr, c):
+        inside = {id(x) for x in ast.walk(c)}
+        if all(id(p) in inside for p in impure_before) and _always_evaluated(expr, c):
           return c
         return None
       if isinstance(c.func, ast.Name) and c.func.id in PURE_BUILTINS:
@@ -299,7 +301,7 @@ class Inliner(object):
       if isinstance(c.func, ast.Attribute) and c.func.attr in ('get', 'items', 'keys', 'values', 'strip', 'split', 'format', 'join',
                                                               'startswith', 'endswith', 'encode', 'decode', 'replace', 'lstrip', 'rstrip'):
         continue
-      return None
+      impure_before.append(c)
     return None
 
   def _callee(self, call, fn):
